@@ -104,6 +104,14 @@ def gen_ir(g, rng, n_mod=None, with_aux=True, cross_module_refs=False):
             m.ir = ir
         else:
             ir.modules.append(m)
+    # module-level tables naming nodes of *other* modules (earlier and later ones): resolution must not depend on the
+    # order in which modules are decoded
+    if with_aux and len(mods) >= 2:
+        for i_, m in enumerate(mods):
+            others = [n for j_, mm in enumerate(mods) if j_ != i_ for n in list(mm.cfg_nodes) + list(mm.symbols) + list(mm.sections)]
+            if others and rng.random() < 0.6:
+                m.aux_data["xrefs"] = g.AuxData([rng.choice(others) for _ in range(rng.randint(1, 3))], "sequence<UUID>")
+                m.aux_data["xoffs"] = g.AuxData({g.Offset(rng.choice(others), 1): rng.choice(others)}, "mapping<Offset,UUID>")
     nodes = [n for n in ir.cfg_nodes]
     for _ in range(rng.randint(0, 4)):
         if not nodes:
